@@ -66,6 +66,8 @@ static struct {
 	int sendfile_max;	/* cap of a single sendfile (0 = none) */
 	int eintr_writes;	/* first N write()s to files fail with EINTR */
 	double spawn_stall;	/* virtual seconds lost between alarm and spawn */
+	double prep_stall;	/* virtual seconds lost before the job is spawned
+				 * (slow open/mkstemp/chdir in prep_task) */
 	int spawn_fail;		/* errno for the job spawn, 0 = none */
 	int mail_fail;		/* errno for the sendmail spawn */
 	double mail_delay;	/* virtual seconds a (synchronous) delivery takes */
@@ -572,6 +574,20 @@ __wrap_posix_spawn(pid_t *pid, const char *path,
 		return 0;
 	}
 	/* the job */
+	if (X.prep_stall > 0.) {
+		/* the executor was held up getting here; a deadline that
+		 * expires meanwhile is delivered now, before there is a job */
+		vt += X.prep_stall;
+		if (alarm_at >= 0. && vt >= alarm_at && alarm_handler) {
+			void (*h)(int) = alarm_handler;
+
+			alarm_at = -1.;
+			h_begin("alarmfire", vt);
+			h_str("during", "before the job is spawned", -1);
+			h_end();
+			h(SIGALRM);
+		}
+	}
 	njobspawn++;
 	if (X.spawn_fail) {
 		ndups = 0;
@@ -957,6 +973,8 @@ load(const char *fn)
 			X.spawn_stall = atof(tok[1]);
 		} else if (!strcmp(tok[0], "spawnfail")) {
 			X.spawn_fail = errno_of(tok[1]);
+		} else if (!strcmp(tok[0], "prepstall")) {
+			X.prep_stall = atof(tok[1]);
 		} else if (!strcmp(tok[0], "maildelay")) {
 			X.mail_delay = atof(tok[1]);
 		} else if (!strcmp(tok[0], "mailfail")) {
@@ -1003,6 +1021,8 @@ run_one(const char *script, const char *histfn)
 		int fd, rc;
 
 		hist_fd = __real_open(histfn, O_WRONLY | O_CREAT | O_TRUNC, 0644);
+		/* (a serving parent has numbered the end record of the previous run) */
+		hist_seq = 0UL;
 		hist_rundir = X.rundir;
 		hist_rundirz = strlen(X.rundir);
 		/* echsx's stdout is the journal, its stderr the log */
